@@ -258,11 +258,7 @@ func runHistory(r *Run, class string, p int, ops []SetOp) {
 		g := opGetter[o.Kind]
 		want := o.acceptable(p)
 		if !o.isClear() && (e == nil) != want {
-			sig := ""
-			if p == 2 && o.Kind == "sw" && o.Nil {
-				sig = "C11:p2-set-software-components-nil"
-			}
-			fails = append(fails, pending{"setter-iff-valid", fmt.Sprintf("step %d %s: setter ok=%v, validation accepts the value=%v", i, o, e == nil, want), sig})
+			fails = append(fails, pending{"setter-iff-valid", fmt.Sprintf("step %d %s: setter ok=%v, validation accepts the value=%v", i, o, e == nil, want), ""})
 		}
 		if e == nil {
 			if _, seen := lastOK[o.Kind]; !seen {
@@ -303,11 +299,7 @@ func runHistory(r *Run, class string, p int, ops []SetOp) {
 		}
 	}
 	if all && final.obs.VErr != nil {
-		sig := ""
-		if o := lastOK["sw"]; p == 2 && o.Nil {
-			sig = "C11:p2-set-software-components-nil"
-		}
-		r.FailSig("all-mandatory-set-validates", fmt.Sprintf("every mandatory claim was set successfully, Validate() = %v", final.obs.VErr), sig)
+		r.Fail("all-mandatory-set-validates", fmt.Sprintf("every mandatory claim was set successfully, Validate() = %v", final.obs.VErr))
 	}
 	// the encoding depends only on the final values: replay the last accepted value per claim on a fresh object
 	c2, _ := psa.NewClaims(canonOf(p))
